@@ -372,6 +372,7 @@ def write_evidence(mod, prop, tier, verif_seed, records, corpus_run, det, report
     obs = set()
     sched_digests = set()
     commit_orders = 0
+    max_ratio = 0.0
     for r in records:
         for k, v in (r.get("counters") or {}).items():
             counters[k] = counters.get(k, 0) + v
@@ -388,6 +389,8 @@ def write_evidence(mod, prop, tier, verif_seed, records, corpus_run, det, report
             if len(sched_digests) < 2_000_000:
                 sched_digests.add(d)
         commit_orders += int(ex.get("commit_orders", 0))
+        if ex.get("max_budget_ratio") is not None:
+            max_ratio = max(max_ratio, float(ex["max_budget_ratio"]))
     samples = []
     for r in records:
         if r.get("scenario") is not None and len(samples) < 3:
@@ -415,6 +418,7 @@ def write_evidence(mod, prop, tier, verif_seed, records, corpus_run, det, report
             "simulated_time_s": sim_time,
             "distinct_observation_digests": len(obs),
             "distinct_schedule_digests": len(sched_digests),
+            "largest_observed_error_over_rounding_budget": max_ratio,
             "distinct_commit_orders_summed_over_scenarios": commit_orders,
             "interleaving_measure": "a schedule digest is the SHA-256 of the full decision sequence (worker, quantum, biased hand-over coin flips) of one simulated parfor / GPU launch set; a commit order is the order in which output slots were completed",
             "fault_and_reach_counters_fired": dict(sorted(counters.items())),
